@@ -348,7 +348,9 @@ class Sched(object):
 
     # -------------------------------------------------------------- the loop
     def menu(self):
-        evs = sorted(self.pending, key=lambda e: e.key())
+        # self.priority: connections whose calls sort first (a client that is served as soon as it asks)
+        pr = getattr(self, "priority", None)
+        evs = sorted(self.pending, key=(lambda e: e.key()) if not pr else (lambda e: (0 if e.conn.key() in pr else 1,) + e.key()))
         if self.fifo:
             # foolscap delivers the calls of one connection in issue order and answers them in
             # order: only the oldest pending call of each connection is enabled
